@@ -344,7 +344,9 @@ def run(tape: Tape, params: dict) -> Outcome:
                     peer.next_sid = 3
                     steps.append(("send", h1peer.build_request(b"GET", target, hdrs)))
                     parser_obj: Any = H2cUpgradeParser(peer)
-                    steps.append(("wait", lambda sc: sc.parser.switched or sc.parser.error, 20.0))
+                    if tape.chance(1, 2, "h2c.wait101"):
+                        steps.append(("wait", lambda sc: sc.parser.switched or sc.parser.error, 20.0))
+                    # else: preface and first frames ride directly behind the upgrade request
                     steps.append(("send", peer.preface()))
                     csample["reqs"].append({"tag": tag.decode(), "upgrade": "h2c"})
                 else:
